@@ -131,3 +131,49 @@ pub fn c02_malformed_more(inp: &mut Inp) {
     parse_fixed(inp, &[0x04, 0x34, 0, 1, b'c', 0, 0, 0x02, 0x03]);
     reached();
 }
+
+//@ {"tier":"quick","unwind":4,"desc":"blocking reader primitives with boundary declared lengths (0, 1, 2, 3, 0x7fff, 0x8000, 0xfffe, 0xffff) against a source holding 2 more bytes: read_name / read_value return Ok exactly when the source holds the declared bytes, otherwise Err(UnexpectedEof); never a panic or an oversized allocation","sym":"2 content bytes; declared lengths enumerated (a symbolic allocation size runs CBMC out of memory)"}
+pub fn c02_reader_boundary_lengths(inp: &mut Inp) {
+    use std::io::Cursor;
+    let c = [inp.ascii(), inp.ascii()];
+    const LENS: [u16; 8] = [0, 1, 2, 3, 0x7fff, 0x8000, 0xfffe, 0xffff];
+    let mut i = 0;
+    while i < 8 {
+        let l = LENS[i].to_be_bytes();
+        let d = leak([l[0], l[1], c[0], c[1]]);
+        let declared = LENS[i] as usize;
+        let mut r = ipp::reader::IppReader::new(Cursor::new(&d[..]));
+        match r.read_value() {
+            Ok(b) => {
+                assert!(declared <= 2 && b.len() == declared, "Ok only with exactly the declared number of bytes");
+                core::mem::forget(b);
+            }
+            Err(e) => {
+                assert!(declared > 2 && e.kind() == std::io::ErrorKind::UnexpectedEof);
+                core::mem::forget(e);
+            }
+        }
+        let mut r = ipp::reader::IppReader::new(Cursor::new(&d[..]));
+        match r.read_name() {
+            Ok(n) => {
+                assert!(declared <= 2 && n.len() == declared, "Ok only with exactly the declared number of bytes");
+                core::mem::forget(n);
+            }
+            Err(e) => {
+                assert!(declared > 2 && e.kind() == std::io::ErrorKind::UnexpectedEof);
+                core::mem::forget(e);
+            }
+        }
+        i += 1;
+    }
+    reached();
+}
+
+//@ {"tier":"thorough","unwind":12,"timeout":1500,"desc":"displaying a decoded resolution never panics: any units octet, any feed values","sym":"2 x i32, units i8"}
+pub fn c02_display_resolution(inp: &mut Inp) {
+    let v = IppValue::Resolution { cross_feed: inp.i32(), feed: inp.i32(), units: inp.u8() as i8 };
+    let s = v.to_string();
+    assert!(s.len() >= 5);
+    core::mem::forget(s);
+    reached();
+}
